@@ -1,5 +1,6 @@
 SPECIFICATION MCSpec
 CONSTANTS
+  ViaDefault = FALSE
   Threads = {1, 2}
   Regs = {1, 2}
   MaxSpans = 3
